@@ -34,6 +34,9 @@ PROFILES = {
     "ref4": prof2("MovesRef", 4, [[1, 2]]),
     "reroot3": prof2("MovesReroot", 3, [[1, 1], [6, 6]], overrides=dict(Moves="MovesReroot", SrcHeaps="SrcHeapsOne")),
     "reroot4": prof2("MovesReroot", 4, [[1, 1]], overrides=dict(Moves="MovesReroot", SrcHeaps="SrcHeapsOne")),
+    "equiv1": prof2("MovesEquiv", 1, [[1, 2], [1, 3], [6, 2], [4, 2], [5, 3]], invariants=["EquivHolds", "ScopeWF"]),
+    "equiv2": prof2("MovesEquiv", 2, [[1, 2], [1, 3], [6, 2], [4, 2], [7, 3]], invariants=["EquivHolds", "ScopeWF"]),
+    "equiv_tall": prof2("MovesEquiv", 1, [[9, 2]], invariants=["EquivHolds"]),
     "union3": prof2("MovesUnion", 3, [[1, 3], [3, 6]]),
     "core2": prof("MC_Core", "MovesCore", 2),
     "core3": prof("MC_Core", "MovesCore", 3, srcs=[1, 6]),
@@ -145,6 +148,11 @@ CHECKS = {
         clauses={"errclass", "accept", "export-error"}, export_error_backends={"polars"},
         phases=dict(quick=[dict(profile="err2"), dict(profile="join2"), dict(profile="union2")],
                     thorough=[dict(profile="err3"), dict(profile="join2"), dict(profile="union3")]),
+    ),
+    "C15": dict(
+        level="model_checking",
+        clauses={"equiv", "rows", "names", "accept", "export-error"},
+        phases=dict(quick=[dict(profile="equiv2"), dict(profile="equiv_tall")], thorough=[dict(profile="equiv2"), dict(profile="equiv_tall")]),
     ),
     "C16": dict(
         level="model_checking",
